@@ -4,7 +4,7 @@ import ast
 from sa.cfg import cfg_of
 from sa.effects import attr_writes
 from sa.program import dotted, norm, own_nodes, const_str
-from sa.util import (ancestors, cfg_node_of, compare_parts, enclosing_loops, in_handler, self_calls_in,
+from sa.util import (ancestors, cfg_node_of, compare_parts, enclosing_loops, guards_at, in_handler, self_calls_in,
                      stmt_text, names_in)
 from . import shared
 from .roles import CONFIG_ATTR, VIEWS, roles
@@ -60,6 +60,44 @@ def run(ctx):
     ok = bool(rd) and all(any(isinstance(l, ast.For) and "after" in norm(l.iter) for l in enclosing_loops(sched, x)) for x in rd)
     c.ob("R2", ok, sched, "delay-resolved-at-entry", "named / computed delays are resolved when the state's tasks are armed (at entry)" if ok else
          "_schedule_state_tasks no longer resolves the delay through _resolve_delay for each after-key", sched.node)
+    # ---- R7 several delays on one state are independent: nothing but 'continue' (or a raise) leaves an arming loop early ----
+    for l in [x for x in own_nodes(sched.node) if isinstance(x, ast.For) and (".after" in norm(x.iter) or ".invoke" in norm(x.iter))]:
+        early = [y for st_ in l.body for y in ast.walk(st_) if isinstance(y, (ast.Break, ast.Return))
+                 and not any(isinstance(z, (ast.For, ast.While)) and z is not l and any(y is w_ for w_ in ast.walk(z)) and isinstance(y, ast.Break) for st2 in l.body for z in ast.walk(st2))]
+        c.ob("R7", not early, sched, f"arming-loop-complete:{norm(l.iter)[:30]}", "every declared delay / invocation of the state is armed (an unusable one is skipped with 'continue')" if not early else
+             f"'{stmt_text(early[0])}' leaves the loop over '{norm(l.iter)}' early: the timers / services declared after the first unusable one are never armed", early[0] if early else l)
+    # ---- R6 every delay form is resolved to a number: computed specs and callable named delays are called --------
+    from sa.util import canon_atom
+    rdf = p.method("BaseInterpreter", "_resolve_delay")
+    called = {}
+    for x in own_nodes(rdf.node):
+        if not isinstance(x, ast.If):
+            continue
+        t = canon_atom(x.test)
+        if t[0] == "truthy" and t[1].startswith("callable(") and t[3] is True:
+            var = t[1][len("callable("):-1]
+            asg = [y for st_ in x.body for y in ast.walk(st_) if isinstance(y, ast.Assign) and norm(y.targets[0]) == var and isinstance(y.value, ast.Call)
+                   and (norm(y.value.func) == var or any(norm(a_) == var for a_ in y.value.args))]
+            if asg:
+                called[var] = x
+    spec_p = rdf.params[1] if len(rdf.params) > 1 else "spec"
+    c.ob("R6", spec_p in called, rdf, "computed-delay-is-called", "a callable delay is called with the context and the event" if spec_p in called else
+         f"_resolve_delay no longer calls a callable delay under 'callable({spec_p})': a computed delay resolves to no delay and the timer never fires", rdf.node)
+    named = [v_ for v_ in called if v_ != spec_p]
+    lookups = [a for a in own_nodes(rdf.node) if isinstance(a, ast.Assign) and isinstance(a.value, ast.Call) and "delays.get" in norm(a.value.func)]
+    if c.expect("R6", "lookup of a named delay in MachineLogic.delays", len(lookups), 1, rdf, "_resolve_delay no longer looks a named delay up in MachineLogic.delays"):
+        nv = norm(lookups[0].targets[0])
+        c.ob("R6", nv in named, rdf, "callable-named-delay-is-called", "a named delay registered as a callable is called" if nv in named else
+             f"a named delay that is a callable is no longer called under 'callable({nv})': float() of the function fails, the error is contained and "
+             f"the timer silently never fires", lookups[0])
+        strtest = [x for x in own_nodes(rdf.node) if isinstance(x, ast.If) and any(lookups[0] is y for st_ in x.body for y in ast.walk(st_))]
+        ok = bool(strtest) and canon_atom(strtest[0].test)[:2] == ("truthy", f"isinstance({spec_p}, str)") and canon_atom(strtest[0].test)[3] is True
+        c.ob("R6", ok, rdf, "named-delay-only-for-strings", "the named-delay lookup is taken for string delays" if ok else
+             "the named-delay lookup is no longer guarded by 'the delay is a string'", lookups[0])
+    nums = [r_ for r_ in own_nodes(rdf.node) if isinstance(r_, ast.Return) and isinstance(r_.value, ast.Call) and norm(r_.value.func) == "float" and norm(r_.value.args[0]) == spec_p]
+    oknum = any(any(canon_atom(a, pol)[1].startswith(f"isinstance({spec_p}, (int, float)") and canon_atom(a, pol)[3] for a, pol in guards_at(rdf, r_)) for r_ in nums)
+    c.ob("R6", oknum, rdf, "numeric-delay-returned", "a numeric delay is returned as milliseconds" if oknum else
+         "a numeric delay is no longer returned as float(spec) under the numeric type test", rdf.node)
     # ---- R3 stop() releases every timer container ------------------------------------
     st = roles(ctx, "SyncInterpreter").stop
     sets = [x for x in own_nodes(st.node) if isinstance(x, ast.Call) and isinstance(x.func, ast.Attribute) and x.func.attr == "set"
